@@ -124,6 +124,10 @@ func generateOnce(r *rand.Rand, p *Profile) *Grammar {
 		rules[i] = &Rule{Name: gn.names[i], Expr: e}
 		if pct(r, p.PDisplay) {
 			rules[i].Display = "disp " + gn.names[i]
+			if i%3 == 1 {
+				// characters that mean something to printf and to Go string syntax
+				rules[i].Display = "100% " + gn.names[i] + " %d %s \\n"
+			}
 		}
 		gn.nullable[gn.names[i]] = gn.isNullable(e)
 	}
